@@ -105,4 +105,11 @@ theorem code_block_bilinear_convex (x y : Rat) (xs ys : Int) (nrows ncols : Nat)
   have wp : 0 ≤ bp.2.2 ∧ bp.2.2 ≤ 1 := C09.blockBil_weight (x - xs) ncols hc
   exact C09.bilValue_convex data _ _ _ _ _ _ lo hi wl wp (hd _ _) (hd _ _) (hd _ _) (hd _ _)
 
+/-- which source blocks `gradient_resampler_indices` does not search (all-NaN indices): exactly those less than two pixels
+thick; every block of at least 2 × 2 pixels is searched -/
+theorem code_gradient_block_too_thin (h w : Int) :
+    Gen.gradient_block_too_thin (h, w) = decide (h < 2 ∨ w < 2) := by
+  simp only [Gen.gradient_block_too_thin, Gen.pyMinI]
+  by_cases a : h ≤ w <;> by_cases b : h < 2 <;> by_cases c : w < 2 <;> simp [a, b, c] <;> omega
+
 end PyresampleModel.Tie
